@@ -25,7 +25,7 @@ def run(rep: Report, repo: Repo):
     mod = repo.mod('stil')
     interface_order(rep, repo, mod)
     twins(rep, mod)
-    chain_orientation(rep, mod)
+    chain_orientation(rep, mod, Logic(repo))
     transition_table(rep, repo)
     stil_grammar(rep, mod)
 
@@ -137,7 +137,61 @@ def twins(rep, mod):
             rep.violate('C18.twins', mod, b, w[:100], f'tests_loc: `{w}` required (loaded state is simulated one cycle; loaded and next state combine through mv_transition(init, launch))', node=b)
 
 
-def chain_orientation(rep, mod):
+def expr_rank(e, env, lg):
+    """Shape (tuple of ints / symbols) of an expression over lists whose shapes are given in env.
+    Supports logic.mvarray(x) (interpreted from its source by shape), np.array(x, ...), x[k] with a constant."""
+    if isinstance(e, ast.Name):
+        if e.id in env:
+            return env[e.id]
+        raise ModelError(f'unknown name {e.id}')
+    if isinstance(e, ast.Subscript) and isinstance(e.slice, ast.Constant) and isinstance(e.slice.value, int):
+        b = expr_rank(e.value, env, lg)
+        if not b:
+            raise ModelError('indexing a scalar')
+        return b[1:]
+    if isinstance(e, ast.Call) and call_name(e) in ('np.array', 'np.asarray') and e.args:
+        return expr_rank(e.args[0], env, lg)
+    if isinstance(e, ast.Call) and call_name(e) in ('list', 'tuple') and e.args:
+        return expr_rank(e.args[0], env, lg)
+    if isinstance(e, ast.BinOp) and isinstance(e.op, ast.Mult):
+        for a, b in ((e.left, e.right), (e.right, e.left)):
+            try:
+                return expr_rank(a, env, lg)
+            except ModelError:
+                continue
+        raise ModelError('product of unknowns')
+    if isinstance(e, ast.Call) and call_name(e) == 'logic.mvarray':
+        shp = (len(e.args),) + expr_rank(e.args[0], env, lg) if len(e.args) == 1 else None
+        if shp is None:
+            raise ModelError('mvarray with several arguments')
+        return mvarray_shape(lg, shp)
+    raise ModelError(f'expression {norm(e)[:60]}')
+
+
+def mvarray_shape(lg, shp):
+    """Abstract shape interpretation of logic.mvarray for np.array(interpret(a)) of shape `shp`
+    (entries are ints or symbols standing for lengths >= 2)."""
+    f = lg.func('mvarray')
+    body = body_no_doc(f)
+    if cz(body[0]) != 'mva=np.array(interpret(a),dtype=np.uint8)':
+        raise ModelError('mvarray: first statement is not mva = np.array(interpret(a), dtype=np.uint8)')
+    for st in body[1:]:
+        t = cz(st)
+        if t == 'ifmva.ndim<2:returnmva':
+            if len(shp) < 2:
+                return shp
+        elif t == 'ifmva.shape[-2]>1:returnmva.swapaxes(-1,-2)':
+            d = shp[-2]
+            if not isinstance(d, int) or d > 1:
+                return shp[:-2] + (shp[-1], shp[-2])
+        elif t == 'returnmva[...,0,:]':
+            return shp[:-2] + (shp[-1],)
+        else:
+            raise ModelError(f'mvarray: statement `{norm(st)[:60]}` outside the shape model')
+    raise ModelError('mvarray: no return reached')
+
+
+def chain_orientation(rep, mod, repo_logic=None):
     rep.rule('C18.chain', '_maps: scan_map and scan-out inversions are filled over the reversed cell list; scan-in inversions are accumulated forward and reversed once; "!" toggles, anything else is a cell; both ports share one scan_map')
     f = mod.func('StilFile._maps')
     outer = [lp for lp in find_all(f, ast.For) if cz(lp.iter) == 'self.scan_chains.values()']
@@ -172,12 +226,35 @@ def chain_orientation(rep, mod):
     rep.ob('C18.chain', 'inversion reset before each pass; scan-in inversions reversed exactly once between the passes', ok)
     if not ok:
         rep.violate('C18.chain', mod, f, 'inversion = False / reversed(scan_in_inversion)', '_maps: the running inversion must restart at False before each pass and the scan-in inversion list must be reversed exactly once (to the scan-map order)', node=lp)
-    need = [f'scan_maps[{ch}[0]]=scan_map', f'scan_maps[{ch}[-1]]=scan_map', f'scan_inversions[{ch}[0]]=logic.mvarray(scan_in_inversion)[0]', f'scan_inversions[{ch}[-1]]=logic.mvarray(scan_out_inversion)[0]']
+    need = [f'scan_maps[{ch}[0]]=scan_map', f'scan_maps[{ch}[-1]]=scan_map']
     for w in need:
         ok = w in seq
         rep.ob('C18.chain', w, ok)
         if not ok:
-            rep.violate('C18.chain', mod, f, w, f'_maps: `{w}` required (scan-in port = chain[0], scan-out port = chain[-1]; both share the scan map; each gets its own inversion list)', node=lp)
+            rep.violate('C18.chain', mod, f, w, f'_maps: `{w}` required (scan-in port = chain[0], scan-out port = chain[-1]; both share the scan map)', node=lp)
+    # inversion vectors: one entry per scan cell (rank 1), from the right list, for the right port
+    rep.rule('C18.rank', 'the inversion value stored per port is a vector with one entry per scan cell (shape interpretation of logic.mvarray), not a scalar')
+    for key, src in ((f'{ch}[0]', 'scan_in_inversion'), (f'{ch}[-1]', 'scan_out_inversion')):
+        st = [x for x in lp.body if isinstance(x, ast.Assign) and cz(x.targets[0]) == f'scan_inversions[{key}]']
+        if len(st) != 1:
+            rep.ob('C18.chain', f'scan_inversions[{key}]', False)
+            rep.violate('C18.chain', mod, f, f'scan_inversions[{key}]', f'_maps: scan_inversions[{key}] must be assigned once per chain', node=lp)
+            continue
+        v = st[0].value
+        names = {x.id for x in ast.walk(v) if isinstance(x, ast.Name)}
+        ok = src in names and not ({'scan_in_inversion', 'scan_out_inversion'} - {src}) & names
+        rep.ob('C18.chain', f'scan_inversions[{key}] built from {src}', ok)
+        if not ok:
+            rep.violate('C18.chain', mod, f, st[0], f'_maps: scan_inversions[{key}] must be built from {src} (inversions between that port and each cell)', node=st[0])
+        try:
+            rk = expr_rank(v, {'scan_in_inversion': ('n',), 'scan_out_inversion': ('n',)}, repo_logic)
+        except ModelError as e:
+            raise ModelError(f'_maps: shape of `{norm(v)}` not analysable: {e}')
+        ok = rk == ('n',)
+        rep.ob('C18.rank', f'scan_inversions[{key}] = {norm(v)} has shape {rk}', ok, sample={'rule': 'C18.rank', 'expr': norm(v), 'shape': list(rk)})
+        if not ok:
+            rep.violate('C18.rank', mod, f, st[0], f'_maps: `{norm(st[0])}` has shape {rk} but must have one entry per scan cell (shape (n,)): with a scalar the inversion of the first cell is applied to every cell of the chain, '
+                        f'so markers in the middle of a chain are mis-applied', node=st[0])
     init = mod.func('StilFile.__init__')
     t = [cz(s) for s in body_no_doc(init)]
     ok = 'self.si_ports=dict(((v[0],k)for(k,v)inscan_chains.items()))' in [x.replace('fork,vin', 'for(k,v)in') for x in t] and 'self.so_ports=dict(((v[-1],k)for(k,v)inscan_chains.items()))' in [x.replace('fork,vin', 'for(k,v)in') for x in t]
